@@ -75,6 +75,7 @@ pub fn err_term(e: &BinaryError) -> String {
         BinaryError::InvalidConstantType(_) => "EConstTag".into(),
         BinaryError::InvalidNestedFunctionIndex { .. } => "ENestedIdx".into(),
         BinaryError::InvalidUtf8 => "EUtf8".into(),
+        BinaryError::InvalidPointer(_) => "EPtr".into(),
         BinaryError::UnexpectedEof => "EEof".into(),
         BinaryError::LimitExceeded { what, .. } => {
             let id = match *what {
